@@ -205,6 +205,9 @@ struct RunResult {
     conn: Option<ConnRes>,
     panic: Option<String>,
     stuck: bool,
+    /// what the client wrote in answer to ONE inbound QoS 1 PUBLISH (identifier 0x4242) delivered
+    /// after the requests (run-phase cases whose DISCONNECT was not part of the requests)
+    probe_wire: Option<Vec<u8>>,
 }
 
 fn execute(req: &Req, plan: &WritePlan) -> Result<RunResult, String> {
@@ -225,6 +228,7 @@ fn execute(req: &Req, plan: &WritePlan) -> Result<RunResult, String> {
                 conn: w.conn_results.last().cloned(),
                 panic: first_panic(&w),
                 stuck,
+                probe_wire: None,
             })
         }
         Req::Authorize(spec) => {
@@ -267,6 +271,7 @@ fn execute(req: &Req, plan: &WritePlan) -> Result<RunResult, String> {
                 conn,
                 panic: first_panic(&w),
                 stuck,
+                probe_wire: None,
             })
         }
         Req::Ops { ops, batch } => {
@@ -292,12 +297,26 @@ fn execute(req: &Req, plan: &WritePlan) -> Result<RunResult, String> {
             }
             settle(&mut w, plan, false);
             let stuck = w.writer.blocked() || w.budget_exhausted;
+            let wire = w.writer.data()[off..].to_vec();
+            // everything the client writes is a packet of its own accord or an answer: one inbound
+            // QoS 1 PUBLISH now draws exactly one PUBACK and nothing else
+            let mut probe_wire = None;
+            if !stuck && w.run_result.is_none() && !ops.iter().any(|(_, s)| matches!(s, OpSpec::Disconnect(_))) && first_panic(&w).is_none() {
+                let at = w.writer.len();
+                w.tick();
+                w.reader.feed(rc::encode(&rc::Packet::Publish(rc::Publish { qos: 1, pid: Some(0x4242), topic: "c01/probe".into(), payload: vec![1], ..Default::default() }), &rc::Form::canonical()));
+                settle(&mut w, plan, false);
+                if !w.writer.blocked() && !w.budget_exhausted {
+                    probe_wire = Some(w.writer.data()[at..].to_vec());
+                }
+            }
             Ok(RunResult {
-                wire: w.writer.data()[off..].to_vec(),
+                wire,
                 op_results: idx.iter().map(|i| w.ops[*i].res.clone()).collect(),
                 conn: None,
                 panic: first_panic(&w),
                 stuck,
+                probe_wire,
             })
         }
     }
@@ -512,6 +531,20 @@ impl Property for C01 {
         }
         out.nontrivial = nset >= 2 || refused > 0 || frag;
 
+        if let Some(pw) = &r.probe_wire {
+            let want_ack = rc::encode(&rc::Packet::Puback(rc::Ack { pid: 0x4242, ..Default::default() }), &rc::Form::short());
+            let ok = match rc::decode_all(pw, rc::Dir::FromClient) {
+                Ok(v) => v.len() == 1 && matches!(&v[0], rc::Packet::Puback(a) if a.pid == 0x4242),
+                Err(_) => false,
+            };
+            out.class("answer-probe");
+            if !ok {
+                return Outcome::fail(
+                    if pw.len() > want_ack.len() { "C01/wire/extra-packets" } else { "C01/wire/missing-packets" },
+                    format!("one inbound QoS 1 PUBLISH (identifier 0x4242) after the requests: the client wrote {} (a single PUBACK for it was due)", hex(pw)),
+                );
+            }
+        }
         // (1)+(4): the wire is a concatenation of whole, strictly well-formed packets
         let (frames, rest) = rc::frames(&r.wire);
         if rest != 0 {
